@@ -276,6 +276,7 @@ def t4_builders(fns, consts):
     bad = []
     try:
         for pat, want, banned in ((r'^process_widget_children$', ['children', 'map', 'collect'], ('rev', 'sorted', 'sorted_by_key', 'skip', 'step_by', 'take')),
+                                  (r'^process_tab_widget_children$', ['children', 'map', 'collect'], ('rev', 'sorted', 'sorted_by_key', 'skip', 'step_by', 'take')),
                                   (r'^collect_action_like_children$', ['iter', 'filter_map', 'collect'], ('rev', 'sorted', 'sorted_by_key', 'skip', 'step_by', 'take'))):
             fn = M.find_fn(fns, pat)
             it = M.Interp(fn, consts)
@@ -318,6 +319,165 @@ def t4_builders(fns, consts):
     return O._finish(ob, t0, sorted(set(bad))[:6])
 
 
+ITEM_ATTRS = {'alignment': 'alignment', 'column': 'column', 'colspan': 'column_span', 'row': 'row', 'rowspan': 'row_span'}
+
+
+def t5_item_wrapper(fns, consts):
+    ob = O._ob('c11_mir_layout_item_wrapper', 'uigen::layout::LayoutItem::serialize_to_xml', 'every combination of present / absent alignment, column, column span, row, row span (2^5, presence symbolic); io errors not followed',
+               'the content is serialised exactly once between the start and end tag of an <item> element; an attribute is written iff its own field is present and carries the value of that field: '
+               'alignment <- alignment, column <- column, colspan <- column_span, row <- row, rowspan <- row_span; nothing else is attached')
+    t0 = time.time()
+    bad = []
+    try:
+        cands = [f for n, f in fns.items() if n.endswith('::serialize_to_xml') and re.search(r'\(_1: &(layout::)?LayoutItem,', f.header)]
+        if len(cands) != 1:
+            raise M.MirError(f'{len(cands)} LayoutItem::serialize_to_xml bodies')
+        lf = O.struct_fields('lib/src/uigen/layout.rs', 'LayoutItem')
+        if set(ITEM_ATTRS.values()) | {'content'} != set(lf):
+            raise M.MirError(f'LayoutItem fields changed: {lf}')
+        me = M.Adt('LayoutItem', [M.Opaque('item.' + f) for f in lf], lf)
+        eng = VecSeq(fns, consts, [])
+        it = eng.interp(cands[0], {'_1': M.Ref(me)})
+        p0 = M.Path()
+        p0.heap = {}
+        n = 0
+        cover = []
+        for q in it.run(path=p0, max_paths=3000):
+            if q.end != 'return' or M.check(q.pc) == 'unsat':
+                continue
+            n += 1
+            cover.append(z3.And(q.pc) if q.pc else z3.BoolVal(True))
+            tr = q.heap.get('#trace', ())
+            news = [t for t in tr if t.startswith('BytesStart::new(')]
+            if len(news) != 1 or "'item'" not in news[0]:
+                bad.append(f'the wrapper element is not a single <item>: {news[:2]}')
+            pushed = {}
+            for t in tr:
+                if not t.startswith('BytesStart::push_attribute('):
+                    continue
+                m = re.search(r"\(\('str', '(\w+)'\), (.*)\)\)$", t)
+                if not m:
+                    bad.append('unreadable attribute: ' + t[:120])
+                    continue
+                if m.group(1) in pushed:
+                    bad.append(f'attribute {m.group(1)} is written twice')
+                pushed[m.group(1)] = m.group(2)
+            for attr, val in pushed.items():
+                f = ITEM_ATTRS.get(attr)
+                if f is None:
+                    bad.append(f'unexpected <item> attribute {attr}')
+                    continue
+                srcs = set(re.findall(r'item\.(\w+)@Some', val))
+                if srcs != {f}:
+                    bad.append(f'<item {attr}=..> carries {sorted(srcs) or val[:60]} instead of the item\'s {f}')
+                # the field must be present on this path
+                O._unsat(q.pc + [z3.Int(f'item.{f}.discr') != 1], bad, f'<item {attr}=..> is written although {f} is absent')
+            for attr, f in ITEM_ATTRS.items():
+                if attr not in pushed:
+                    O._unsat(q.pc + [z3.Int(f'item.{f}.discr') == 1], bad, f'{f} is present but <item {attr}=..> is not written')
+            ws = [i for i, t in enumerate(tr) if t.startswith('Writer') and 'write_event' in t]
+            kids = [i for i, t in enumerate(tr) if 'serialize_to_xml(' in t and 'item.content' in t]
+            if len(kids) != 1:
+                bad.append(f'the content of a layout item is serialised {len(kids)} times')
+            if len(ws) != 2 or 'Event::Start' not in tr[ws[0]] or 'Event::End' not in tr[ws[-1]] or (kids and not ws[0] < kids[0] < ws[-1]):
+                bad.append('the content is not enclosed by the start and end tag of its <item>')
+            if ws and 'push_attribute' in ''.join(tr[ws[0]:]):
+                bad.append('an attribute is attached after the start tag was written')
+        dom = [z3.Or(z3.Int(f'item.{f}.discr') == 0, z3.Int(f'item.{f}.discr') == 1) for f in ITEM_ATTRS.values()]
+        O._unsat(dom + [z3.Not(z3.Or(cover))] if cover else [z3.BoolVal(True)], bad, 'some presence pattern has no returning path')
+        ob['paths'] = n
+    except (M.MirError, z3.Z3Exception) as e:
+        O._finish(ob, t0, ['MIR: ' + str(e)], unknown=True)
+        ob['detail'] = 'MIR: ' + str(e)
+        return ob
+    return O._finish(ob, t0, sorted(set(bad))[:6])
+
+
+def t6_item_content(fns, consts):
+    ob = O._ob('c11_mir_layout_item_kind_dispatch', 'uigen::layout::LayoutItemContent::{build, serialize_to_xml}', 'all ancestry patterns over {QLayout, QSpacerItem, QWidget} (is_derived_from results symbolic)',
+               'a child of a layout is built as a nested <layout> iff its class derives from QLayout, else as a <spacer> iff it is a QSpacerItem (children refused), else as a widget; a class that is none of the three is '
+               'reported and still built as a widget; each kind is written by the serialiser of its own payload')
+    t0 = time.time()
+    bad = []
+    try:
+        fn = M.find_fn(fns, r'layout\.rs:\d+:\d+: \d+:23>::build$')
+        cfields = O.struct_fields('lib/src/uigen/context.rs', 'KnownClasses')
+        known = M.Adt('KnownClasses', [M.Opaque('classes.' + f) for f in cfields], cfields)
+        dfields = O.struct_fields('lib/src/uigen/context.rs', 'BuildDocContext')
+        ctx = M.Adt('BuildDocContext', [known if f == 'classes' else M.Opaque('ctx.' + f) for f in dfields], dfields)
+        KINDS = ['layout', 'spacer_item', 'widget']
+        der = {c: z3.Bool('item_derives_from_' + c) for c in KINDS}
+
+        def model(c, it, p):
+            last = c.callee.split('::<')[0].split('::')[-1]
+            if last == 'is_derived_from':
+                t = canon(c.args[1])
+                for k in KINDS:
+                    if t.endswith('classes.' + k):
+                        return der[k]
+                raise M.MirError('is_derived_from(' + t + ')')
+            if last == 'deref' and isinstance(c08.deref(c.args[0]), M.Adt):
+                return c.args[0]
+            return None
+        it = M.Interp(fn, consts, arg_values={'_1': M.Ref(ctx)}, call_model=model)
+        cover = []
+        l, s, w = der['layout'], der['spacer_item'], der['widget']
+        for q in it.run():
+            if q.end != 'return' or M.check(q.pc) == 'unsat':
+                continue
+            cover.append(z3.And(q.pc) if q.pc else z3.BoolVal(True))
+            r = q.ret
+            kind = r.path.split('::')[-1] if isinstance(r, M.Adt) else None
+            names = [c.callee.split('::<')[0].split('::')[-1] for c in q.calls]
+            inner = canon(r.fields[0]) if isinstance(r, M.Adt) and r.fields else ''
+            want = {'Layout': l, 'SpacerItem': z3.And(z3.Not(l), s), 'Widget': z3.And(z3.Not(l), z3.Not(s))}.get(kind)
+            if want is None:
+                bad.append(f'unexpected result {canon(r)[:80]}')
+                continue
+            O._unsat(q.pc + [z3.Not(want)], bad, f'a layout child is built as {kind} although its class ancestry says otherwise')
+            if kind == 'SpacerItem' and 'confine_children' not in names:
+                bad.append('children of a spacer item are not refused')
+            if kind == 'SpacerItem' and not inner.startswith('new('):
+                bad.append('SpacerItem is not built by SpacerItem::new')
+            if kind in ('Layout', 'Widget') and not inner.startswith('build('):
+                bad.append(f'{kind} is not built by its build()')
+            if kind in ('Layout', 'Widget') and '_2' not in inner and 'obj_node' not in inner:
+                pass
+            if kind == 'Widget':
+                pushed = 'push' in names
+                if M.check(q.pc + [z3.Not(w)]) != 'unsat' and not pushed:
+                    bad.append('a layout child that is neither layout, spacer nor widget is built as a widget without a diagnostic')
+                if pushed:
+                    O._unsat(q.pc + [w], bad, 'a QWidget-derived layout child is reported as an error')
+        O._unsat([z3.Not(z3.Or(cover))] if cover else [z3.BoolVal(True)], bad, 'some ancestry pattern has no returning path')
+        ob['paths'] = len(cover)
+        # the serialiser: each variant to the serialiser of its own payload
+        sfn = [f for n, f in fns.items() if n.endswith('::serialize_to_xml') and re.search(r'\(_1: &(layout::)?LayoutItemContent,', f.header)]
+        if len(sfn) != 1:
+            raise M.MirError(f'{len(sfn)} LayoutItemContent::serialize_to_xml bodies')
+        variants = enum_variants('lib/src/uigen/layout.rs', 'LayoutItemContent')
+        it2 = M.Interp(sfn[0], consts, arg_values={'_1': M.Ref(M.Opaque('content'))})
+        d = it2.leaf('content.discr', 'isize')
+        seen = set()
+        for q in it2.run():
+            if q.end != 'return':
+                continue
+            for i, v in enumerate(variants):
+                if M.check(q.pc + [d == i]) == 'unsat':
+                    continue
+                seen.add(v)
+                calls = [c for c in q.calls if c.callee.split('::<')[0].endswith('serialize_to_xml')]
+                if len(calls) != 1 or f'content@{v}' not in canon(calls[0].args[0]):
+                    bad.append(f'LayoutItemContent::{v} is not written by the serialiser of its own payload: {[canon(c.args[0])[:40] for c in calls]}')
+        if seen != set(variants):
+            bad.append(f'LayoutItemContent variants without a returning path: {sorted(set(variants) - seen)}')
+    except (M.MirError, ValueError) as e:
+        O._finish(ob, t0, ['MIR: ' + str(e)], unknown=True)
+        ob['detail'] = 'MIR: ' + str(e)
+        return ob
+    return O._finish(ob, t0, sorted(set(bad))[:6])
+
+
 DOC = """import qmluic.QtWidgets
 QMainWindow {
     id: win
@@ -347,6 +507,91 @@ QMainWindow {
             QToolBar { id: tools; actions: [quitAct, openAct] }
             QLabel { id: last }
         }
+    }
+}
+"""
+
+
+def t8_tab_pages(fns, consts):
+    ob = O._ob('c11_mir_tab_widget_children_keep_their_kind', 'uigen::object::process_tab_widget_children::{closure#0}', 'every kind of object UiObject::build can return (discriminant symbolic), attached tab properties present or not',
+               'a child of a tab widget is returned as the very object UiObject::build produced for that node -- same kind (a menu stays a menu and is therefore still collected as an action of its parent), same payload; '
+               'the only modification is the extension of the attribute map of a menu / widget payload by the attached tab properties')
+    t0 = time.time()
+    bad = []
+    try:
+        fn = M.find_fn(fns, r'process_tab_widget_children::\{closure#0\}$')
+        variants = enum_variants('lib/src/uigen/object.rs', 'UiObject')
+        ai = O.struct_fields('lib/src/uigen/object.rs', 'Widget').index('attributes')
+
+        def model(c, it, p):
+            last = c.callee.split('::<')[0].split('::')[-1]
+            if last == 'build' and 'UiObject' in c.callee or last == 'build' and 'object.rs' in c.callee:
+                p.builds = getattr(p, 'builds', 0) + 1
+                return M.Opaque('built')
+            return None
+        it = M.Interp(fn, consts, call_model=model)
+        d = it.leaf('built.discr', 'isize')
+        seen = set()
+        for q in it.run():
+            if q.end != 'return' or M.check(q.pc) == 'unsat':
+                continue
+            nb = sum(1 for c in q.calls if c.callee.split('::<')[0].split('::')[-1] == 'build')
+            if nb != 1:
+                bad.append(f'the child is built {nb} times')
+            for i, v in enumerate(variants):
+                if M.check(q.pc + [d == i]) == 'unsat':
+                    continue
+                seen.add(v)
+                r = q.ret
+                t = canon(r)
+                if isinstance(r, M.Opaque) and t == 'built':
+                    continue
+                kind = r.path.split('::')[-1] if isinstance(r, M.Adt) else None
+                if kind != v:
+                    bad.append(f'a child built as {v} is handed to the tab widget as {kind or t[:60]}')
+                elif f'built@{v}' not in t:
+                    bad.append(f'a child built as {v} is returned with another payload: {t[:80]}')
+            names = [c.callee.split('::<')[0].split('::')[-1] for c in q.calls]
+            for c_ in q.calls:
+                if c_.callee.split('::<')[0].split('::')[-1] == 'extend' and not re.fullmatch(r'&?built@(Menu|Widget)\.0\.%d' % ai, canon(c_.args[0])):
+                    bad.append('the attached tab properties are merged into ' + canon(c_.args[0])[:60])
+            if any(n in ('remove', 'clear', 'retain', 'truncate', 'pop', 'take', 'replace', 'swap') for n in names):
+                bad.append(f'the built child is modified by {[n for n in names if n in ("remove", "clear", "retain", "truncate", "pop", "take", "replace", "swap")]}')
+        if seen != set(variants):
+            bad.append(f'kinds without a returning path: {sorted(set(variants) - seen)}')
+        ob['paths'] = len(seen)
+    except (M.MirError, ValueError) as e:
+        O._finish(ob, t0, ['MIR: ' + str(e)], unknown=True)
+        ob['detail'] = 'MIR: ' + str(e)
+        return ob
+    return O._finish(ob, t0, sorted(set(bad))[:6])
+
+
+TAB_DOC = """import qmluic.QtWidgets
+QWidget {
+    id: top
+    QTabWidget {
+        id: tabs
+        QAction { id: first; text: "first" }
+        QWidget { id: page1; QTabWidget.title: "One"; QLabel { id: inPage } }
+        QMenu { id: contextMenu; title: "Menu"; QAction { id: inner; text: "inner" } }
+        QAction { separator: true }
+        QWidget { id: page2; QTabWidget.title: "Two" }
+        QAction { id: last; text: "last" }
+    }
+}
+"""
+
+
+ITEMS_DOC = """import qmluic.QtWidgets
+QWidget {
+    id: top
+    QGridLayout {
+        id: grid
+        QLabel { id: a; QLayout.row: 2; QLayout.column: 1; QLayout.rowSpan: 3; QLayout.columnSpan: 4; QLayout.alignment: Qt.AlignRight }
+        QHBoxLayout { id: inner; QLayout.column: 5 }
+        QSpacerItem { id: sp; QLayout.row: 7 }
+        QPushButton { id: b; QLayout.row: 8; QLayout.column: 0; QLayout.columnSpan: 9 }
     }
 }
 """
@@ -391,6 +636,34 @@ def replay(workdir):
         r2 = D.run_cli(C.build_native(), workdir, text, 'Leaf' + re.sub(r'\W', '', name.title()))
         if r2.rc == 0 and r2.ui and 'name="inner"' not in r2.ui:
             failed.append({'probe': name, 'document': text, 'why': 'an object nested in an action / spacer is accepted and then missing from the .ui'})
+    # children of a tab widget: pages, actions, a menu and a separator keep their kind, place and order
+    r4 = D.run_cli(C.build_native(), workdir, TAB_DOC, 'Tabs')
+    if r4.rc != 0 or not r4.ui:
+        failed.append({'probe': 'tab-widget', 'why': 'the probe document is rejected: ' + r4.stderr[-300:]})
+    else:
+        troot = ET.fromstring(r4.ui).find('widget')
+        got_t = (troot.get('class'), troot.get('name'), shape(troot))
+        want_t = ('QWidget', 'top', [('widget', 'QTabWidget', 'tabs', [
+            ('addaction', 'first'), ('addaction', 'contextMenu'), ('addaction', 'separator'), ('addaction', 'last'),
+            ('action', None, 'first', []), ('widget', 'QWidget', 'page1', [('widget', 'QLabel', 'inPage', [])]),
+            ('widget', 'QMenu', 'contextMenu', [('addaction', 'inner'), ('action', None, 'inner', [])]),
+            ('widget', 'QWidget', 'page2', []), ('action', None, 'last', [])])])
+        if norm(got_t) != norm(want_t):
+            failed.append({'probe': 'tab-widget', 'document': TAB_DOC, 'expected': want_t, 'actual': got_t, 'why': 'children of a tab widget: element kinds, order or the action list differ from the document'})
+    # <item> wrappers: kinds of layout children, and every attribute carries the value of its own attached binding
+    r3 = D.run_cli(C.build_native(), workdir, ITEMS_DOC, 'Items')
+    if r3.rc != 0 or not r3.ui:
+        failed.append({'probe': 'items', 'why': 'the probe document is rejected: ' + r3.stderr[-300:]})
+    else:
+        g = ET.fromstring(r3.ui).find('widget').find('layout')
+        got_items = [(sorted(i.attrib.items()), [(ch.tag, ch.get('class'), ch.get('name')) for ch in i]) for i in g] if g is not None else None
+        want_items = [({'row': '2', 'column': '1', 'rowspan': '3', 'colspan': '4', 'alignment': 'Qt::AlignRight'}, [('widget', 'QLabel', 'a')]),
+                      ({'row': '2', 'column': '5'}, [('layout', 'QHBoxLayout', 'inner')]),
+                      ({'row': '7', 'column': '0'}, [('spacer', None, 'sp')]),
+                      ({'row': '8', 'column': '0', 'colspan': '9'}, [('widget', 'QPushButton', 'b')])]
+        if g is None or g.get('class') != 'QGridLayout' or g.get('name') != 'grid' or norm(got_items) != norm([(sorted(a.items()), k) for a, k in want_items]):
+            failed.append({'probe': 'items', 'document': ITEMS_DOC, 'expected': want_items, 'actual': got_items,
+                           'why': 'the <item> wrappers of a grid layout (attributes, kind and class of the wrapped element) differ from the document'})
     with open(os.path.join(workdir, 'README.txt'), 'w') as f:
         f.write('qmluic generate-ui --foreign-types /repo/contrib/metatypes Tree.qml ; element tree of tree.ui vs the document\n' + json.dumps(failed, indent=1)[:3000] + '\n')
     return bool(failed), {'failed_probes': failed}
@@ -398,7 +671,8 @@ def replay(workdir):
 
 def run(res, args):
     fns, consts = O.load()
-    obs = [t1_dispatch(fns, consts), t2_actions(fns, consts), t3_order(fns, consts), t3b_layout_order(fns, consts), t4_builders(fns, consts)]
+    obs = [t1_dispatch(fns, consts), t2_actions(fns, consts), t3_order(fns, consts), t3b_layout_order(fns, consts), t4_builders(fns, consts),
+           t5_item_wrapper(fns, consts), t6_item_content(fns, consts), t8_tab_pages(fns, consts)]
 
     def rp(ob, d):
         rep, info = replay(d)
